@@ -196,6 +196,7 @@ def operations():
     ops['repr-str'] = lambda r, e: (repr(r), str(r))
     ops['as_artist'] = lambda r, e: type(r.as_artist(origin=(1, 2))).__name__ if _is_pix(r) else None
     ops['mask-apply'] = lambda r, e: _mask_apply(r, e) if _is_pix(r) else None
+    ops['mask-apply-foreign-layout'] = lambda r, e: _mask_apply_layouts(r, e) if _is_pix(r) else None
     for fmt, kws in (('ds9', [{}, {'precision': 3}]), ('crtf', [{}, {'coordsys': 'galactic', 'fmt': '.3f', 'radunit': 'arcsec'}]),
                      ('fits', [{}])):
         for i, kw in enumerate(kws):
@@ -209,6 +210,17 @@ def _mask_apply(r, e):
     mk = r.to_mask(mode='center')
     img = e['image']
     return (mk.to_image(img.shape), mk.cutout(img), mk.multiply(img), mk.get_values(img))
+
+
+def _mask_apply_layouts(r, e):
+    """mask application on images in other memory layouts: big-endian (what astropy.io.fits hands out), Fortran order,
+    a read-only array and a strided view -- the watch list holds them all"""
+    mk = r.to_mask(mode='center')
+    out = []
+    for key in ('image_be', 'image_f', 'image_ro', 'image_strided'):
+        img = e[key]
+        out.append((mk.cutout(img), mk.cutout(img, fill_value=-1.0), mk.multiply(img), mk.get_values(img), mk.to_image(img.shape)))
+    return out
 
 
 def _ser(fmt, kw, r, e):
@@ -255,8 +267,16 @@ def frame_case(kind):
                    'sc': SkyCoord(10.0005, 20.001, unit='deg'), 'scs': SkyCoord([10.0, 10.001], [20.0, 20.002], unit='deg'),
                    'image': np.arange(60 * 50, dtype=float).reshape(60, 50), 'other_pix': P['line'] if kind != 'line' else P['circle'],
                    'other_sky': P['sky-point'] if kind != 'sky-point' else P['sky-circle']}
+            base_img = np.arange(60 * 50, dtype=float).reshape(60, 50)
+            env['image_be'] = base_img.astype('>f8')
+            env['image_f'] = np.asfortranarray(base_img)
+            env['image_ro'] = base_img.copy()
+            env['image_ro'].flags.writeable = False
+            env['image_strided'] = np.arange(120 * 100, dtype=float).reshape(120, 100)[::2, ::2]
             watch = {'region': r, 'other_pix': env['other_pix'], 'other_sky': env['other_sky'], 'pc': env['pc'], 'pcs': env['pcs'],
-                     'image': env['image'], 'wcs_cd': env['wcs'].wcs.cd.copy(), 'wcs_crval': env['wcs'].wcs.crval.copy()}
+                     'image': env['image'], 'wcs_cd': env['wcs'].wcs.cd.copy(), 'wcs_crval': env['wcs'].wcs.crval.copy(),
+                     'image_be': env['image_be'], 'image_f': env['image_f'], 'image_strided': env['image_strided'],
+                     'image_strided_parent': env['image_strided'].base}
             before = {k: fp(v) for k, v in watch.items()}
             before_ids = {k: ids(v) for k, v in watch.items()}
             mod0 = module_state()
